@@ -19,7 +19,8 @@ sub-environments follow TLC-chosen episode scripts (finish alone / together, by
 termination / truncation, inside / at the end of a collection call).  TLC checks
 that the next value kept for a step is the value of the observation THAT step of
 THAT environment returned (the episode's own final observation when it was cut
-there) and that an environment's rows equal those of its solo rollout; the real
+there) and that an environment's rows equal those of its solo rollout - with or
+without a logger / RecordEpisodeStatistics (ReturnsRollout.Setup); the real
 train_ppo -> collect_trajectories -> update_ppo runs on harness.envs.ScriptEnv
 with a stub critic that is injective on observation tags and is compared with
 the emitted rows, next values (exact) and per-environment GAE forms.
@@ -46,7 +47,7 @@ LEVEL = "model_checking"
 MANIFEST = dict(
     category="model_checking",
     text="TLC checks on Returns.tla (exact rational arithmetic) that reward-to-go, n-step return with residual discount, GAE, the A2C / PPO batched advantage preparation, MR.Q's critic target and the encoder-loss mask satisfy their recurrences (= independently written closed forms) and are causal: changing any cell outside {own trajectory, index >= t, <= first termination} never changes output t (relational invariant over every termination pattern), and that this dependency set is tight. Every TLC-generated vector is replayed into the real functions with table stubs and compared exactly (dyadic lattice: float32 arithmetic is exact); the TLC-generated irrelevant / relevant cell sets drive bitwise perturbation tests on random float inputs. Arithmetic laws over all small inputs plus a non-interference relation are exactly what a model checker with exact arithmetic decides and example tests cannot. Rollout level (ReturnsRollout.tla): on TLC-chosen episode scripts of 2-3 sub-environments (finishing alone / together, terminated / truncated, inside / at the end of a collection call) the next value kept for a step is the value of the observation that step of that environment returned (its episode's final observation when cut there) and an environment's rows equal its solo rollout; train_ppo -> collect_trajectories -> update_ppo is run on such scripted vector environments and compared exactly. Object level (ReturnsDataset.tla): one live EpisodeDataset is a state machine whose observer Prepare(gamma) answers for its own gamma whatever was asked before; every transition of the graph (incl. Prepare(g2) after Prepare(g1)) and random histories run on one real object.",
-    note="bounds: rows B<=2 (encoder 1,2,4), steps H<=3 quick / <=4 thorough, every termination pattern, gamma/lambda in {0,1/4,1/2,1}; data exhaustive for <=1-2 cells, otherwise seeded dense fills; update_ppo's fixed gamma=0.99, lambda=0.95 are compared through TLC's symbolic closed form within an operation-count bound of float32 ulps; truncation boundaries are not cuts; rollouts: 2 environments x two-episode scripts (lengths 1-2 quick / 1-3 thorough) and 3 environments x one-episode scripts (lengths 1-3), 4 (6) vector steps in 1-3 collection calls, a logger and RecordEpisodeStatistics present (without them the repository does not restore final observations at all - reported by X05, not judged here); EpisodeDataset graphs up to 3 episodes / 4 (5) samples, rewards {-1, 2}; trusted: scripted vector environment, harness.envs.ScriptEnv under gymnasium SyncVectorEnv, table / linear stubs, interposed ppo.ppo_loss / ppo.compute_gae / ppo.collect_trajectories / ppo.update_ppo recorders, TLC",
+    note="bounds: rows B<=2 (encoder 1,2,4), steps H<=3 quick / <=4 thorough, every termination pattern, gamma/lambda in {0,1/4,1/2,1}; data exhaustive for <=1-2 cells, otherwise seeded dense fills; update_ppo's fixed gamma=0.99, lambda=0.95 are compared through TLC's symbolic closed form within an operation-count bound of float32 ulps; truncation boundaries are not cuts; rollouts: 2 environments x two-episode scripts (lengths 1-2 quick / 1-3 thorough) and 3 environments x one-episode scripts (lengths 1-3), 4 (6) vector steps in 1-3 collection calls, each in the set-ups train_ppo with a logger / train_ppo without a logger / collect_trajectories + update_ppo with a logger on the bare vector environment (the step-class cover in all three, the seeded sample rotating); EpisodeDataset graphs up to 3 episodes / 4 (5) samples, rewards {-1, 2}; trusted: scripted vector environment, harness.envs.ScriptEnv under gymnasium SyncVectorEnv, table / linear stubs, interposed ppo.ppo_loss / ppo.compute_gae / ppo.collect_trajectories / ppo.update_ppo recorders, TLC",
     technique="TLA+ spec + TLC (invariants incl. relational causality on staged vectors; deviation canaries); replay of TLC-generated vectors and dependency sets into compute_gae, discounted_n_step_return, discounted_reward_to_go, prepare_a2c_batch, ppo.collect_trajectories/update_ppo, mrq_loss, model_based_encoder_loss; TLC-generated rollouts into train_ppo on scripted vector environments; transition coverage + random walks of the EpisodeDataset state graph on one live object",
 )
 
@@ -593,11 +594,16 @@ def check_enc(rec, out, probs, corrupt):
 # ------------------------------------------ rollouts of a vector environment (ReturnsRollout.tla)
 ROLL_INVS = ["TypeOK", "BootIsOwnSuccessor", "EnvsIndependent", "ValueSeparates", "TruncatedBootstrapsFromFinal"]
 ROLL_ACTIONS = ["ChooseScripts", "VecStep", "Finish"]
-ROLL_DEVS = (("last_finished_only", "BootIsOwnSuccessor"), ("last_finished_only", "EnvsIndependent"), ("reset_observation", "BootIsOwnSuccessor"))
+# (variant, set-up, invariant that must refute it)
+ROLL_DEVS = (("last_finished_only", "logger_stats", "BootIsOwnSuccessor"), ("last_finished_only", "logger_stats", "EnvsIndependent"),
+             ("reset_observation", "logger_stats", "BootIsOwnSuccessor"), ("restored_only_with_logger", "no_logger", "BootIsOwnSuccessor"),
+             ("restored_only_with_logger", "logger_no_stats", "TruncatedBootstrapsFromFinal"))
+# the set-ups every specified rollout is expected in (ReturnsRollout.Setup): the specification does not depend on them
+SETUPS = ("logger_stats", "no_logger", "logger_no_stats")
 
 
-def roll_consts(n, t, lens, neps, bss, emit, variant="spec"):
-    return dict(EMIT=emit, N=n, T=t, Lens=set(lens), NEps=neps, BlockSizes=set(bss), Variant=variant)
+def roll_consts(n, t, lens, neps, bss, emit, variant="spec", setup="logger_stats"):
+    return dict(EMIT=emit, N=n, T=t, Lens=set(lens), NEps=neps, BlockSizes=set(bss), Variant=variant, Setup=setup)
 
 
 def _roll_modules(vw):
@@ -624,10 +630,14 @@ def _roll_modules(vw):
     return _PPO["critic"][key]
 
 
-def eval_rollout(rec):
-    """train_ppo (iterations = number of blocks, batch_size = block size, a real logger) on a SAME_STEP vector
-    environment of scripted sub-environments.  Returns what every collect_trajectories call returned and the
-    advantages / returns update_ppo handed to ppo_loss for it."""
+def eval_rollout(rec, setup="logger_stats"):
+    """The rollout on a SAME_STEP vector environment of scripted sub-environments, in one of the set-ups
+      logger_stats     train_ppo(iterations = number of blocks, batch_size = block size, logger = MemoryLogger);
+                       train_ppo wraps the environment in RecordEpisodeStatistics itself
+      no_logger        the same with logger = None
+      logger_no_stats  collect_trajectories / update_ppo called block by block as train_ppo calls them (continuation
+                       through last_observation / global_step), on the BARE vector environment, with a logger
+    Returns what every collect_trajectories call returned and the advantages / returns update_ppo handed to ppo_loss."""
     import gymnasium as gym
     import jax
     from rl_blox.algorithm import ppo
@@ -643,6 +653,7 @@ def eval_rollout(rec):
     envs = gym.vector.SyncVectorEnv([(lambda e=e: e) for e in subs], autoreset_mode=gym.vector.AutoresetMode.SAME_STEP)
     blocks = []
     real_collect, real_update = ppo.collect_trajectories, ppo.update_ppo
+    iterations, bs = len(rec["blocking"]), int(rec["blocking"][0])
 
     def collect(*a, **k):
         tr = real_collect(*a, **k)
@@ -662,8 +673,20 @@ def eval_rollout(rec):
     out = {"blocks": blocks}
     ppo.collect_trajectories, ppo.update_ppo = collect, update
     try:
-        ppo.train_ppo(envs, actor, critic, opt_a, opt_c, iterations=len(rec["blocking"]), epochs=1, batch_size=int(rec["blocking"][0]),
-                      seed=1, logger=MemoryLogger(), progress_bar=False)
+        if setup == "logger_no_stats":
+            logger = MemoryLogger()
+            key = jax.random.key(1)
+            last, _ = envs.reset(seed=1)
+            logger.start_new_episode()
+            gstep = 0
+            for _ in range(iterations):
+                key, sub = jax.random.split(key)
+                tr = collect(envs, actor, critic, sub, bs, logger, last, gstep)
+                last, gstep = tr.last_observation, tr.global_step
+                update(actor, critic, opt_a, opt_c, tr.observation, tr.action, tr.reward, tr.terminated, tr.next_value, 1, envs.num_envs)
+        else:
+            ppo.train_ppo(envs, actor, critic, opt_a, opt_c, iterations=iterations, epochs=1, batch_size=bs,
+                          seed=1, logger=MemoryLogger() if setup == "logger_stats" else None, progress_bar=False)
     except Exception as e:  # noqa: BLE001 - raised by the code under test
         out["error"] = _exc(e)
     finally:
@@ -672,20 +695,25 @@ def eval_rollout(rec):
     return out
 
 
+SETUP_TEXT = {"logger_stats": "train_ppo with a logger", "no_logger": "train_ppo with logger=None",
+              "logger_no_stats": "collect_trajectories / update_ppo with a logger on the bare vector environment (no RecordEpisodeStatistics)"}
+
+
 def _tags(a):
     return [[int(round(float(x))) for x in row] for row in np.asarray(a).reshape(-1, 3)]
 
 
-def check_rollout(rec, corrupt=False):
-    """-> Problems for one TLC-emitted rollout (ReturnsRollout.Finish).  corrupt=True perturbs one expected next value."""
+def check_rollout(rec, corrupt=False, setup="logger_stats"):
+    """-> Problems for one TLC-emitted rollout (ReturnsRollout.Finish) run in one set-up (the specification is the
+    same for all of them).  corrupt=True perturbs one expected next value."""
     probs = Problems()
     if corrupt:
         rec = json.loads(json.dumps(rec))
         x = next(x for b in rec["blocks"] for x in b["flat"] if not x["term"])
         x["nv"] = [x["nv"][0] * 2 + 3 * x["nv"][1], x["nv"][1] * 2]
-    out = eval_rollout(rec)
+    out = eval_rollout(rec, setup)
     n = rec["n"]
-    ctx = f"{n} environments, scripts {rec['scripts']}, blocks {rec['blocking']}"
+    ctx = f"{SETUP_TEXT[setup]}, {n} environments, scripts {rec['scripts']}, blocks {rec['blocking']}"
     if "error" in out:
         probs.add("train_ppo:raises", f"{ctx}: {out['error']}")
         return probs
@@ -761,10 +789,11 @@ def select_rollouts(recs, seed, budget):
         want -= {(recs[best]["n"], json.dumps(c)) for c in recs[best]["classes"]}
         chosen.append(best)
         left.remove(best)
+    n_cover = len(chosen)
     rng = np.random.default_rng([int(seed), 707])
-    extra = max(0, min(len(left), budget - len(chosen)))
+    extra = max(0, min(len(left), budget - len(SETUPS) * n_cover))  # the cover runs in every set-up
     chosen += [left[i] for i in sorted(rng.choice(len(left), size=extra, replace=False))] if extra else []
-    return [recs[i] for i in chosen]
+    return [recs[i] for i in chosen], n_cover
 
 
 # ------------------------------------------ one live EpisodeDataset object (ReturnsDataset.tla)
@@ -1003,7 +1032,7 @@ def run(rep):
         float_cap = 16
         # rollouts: (N, T, episode lengths, episodes per script, block sizes); data set graphs: (episodes, samples, rewards, 1/4 in the lattice)
         roll_cfgs = [(2, 4, [1, 2], 2, [4, 2]), (3, 4, [1, 2, 3], 1, [4])]
-        roll_budget = 110
+        roll_budget = 140
         ds_cover, ds_walk, ds_walks = (2, 3, 2, False), (3, 4, 2, False), (60, 14)
     else:
         law = dict(shapes=[11, 12, 13, 14, 21, 22, 23, 24, 41, 42], K=3, exh=2, exh_kinds=("rtg", "nstep", "gae"))
@@ -1021,7 +1050,7 @@ def run(rep):
         "terminated step (rtg: >= 2 rewards)" % (gen["shapes"], gen["exh"], ",".join(gen["exh_kinds"]), gen["K"])
         + "; rollouts: TLC chooses per sub-environment a cyclic episode script and the split into collection calls %s (N, T, lengths, "
         "episodes per script, block sizes), every class of vector step (per environment goes on / terminated / truncated, at a block end or "
-        "not) is replayed at least once through train_ppo plus a seeded sample up to %d; EpisodeDataset: every transition of the state graph "
+        "not) is replayed at least once in EVERY set-up (train_ppo with / without a logger, collect_trajectories + update_ppo on the bare vector environment with a logger) plus a seeded sample rotating through the set-ups, %d runs in all; EpisodeDataset: every transition of the state graph "
         "%s (episodes, samples, rewards, 1/4) once, %d random histories of <= %d calls on the graph %s" % (roll_cfgs, roll_budget, ds_cover, ds_walks[0], ds_walks[1], ds_walk)
     )
 
@@ -1057,8 +1086,8 @@ def run(rep):
     tlc.sany("ReturnsDataset")
     f_roll = [pool.submit(tlc.run, "ReturnsRollout", tlc.cfg_text(constants=roll_consts(n, t, lens, neps, bss, True), invariants=ROLL_INVS),
                           workers=1, coverage=True, tag="c07roll", timeout=1500) for n, t, lens, neps, bss in roll_cfgs]
-    f_rolldev = [pool.submit(tlc.run, "ReturnsRollout", tlc.cfg_text(constants=roll_consts(2, 2, [1, 2], 1, [2], False, variant), invariants=[inv]),
-                             workers=1, tag="c07rolldev") for variant, inv in ROLL_DEVS]
+    f_rolldev = [pool.submit(tlc.run, "ReturnsRollout", tlc.cfg_text(constants=roll_consts(2, 2, [1, 2], 1, [2], False, variant, setup), invariants=[inv]),
+                             workers=1, tag="c07rolldev") for variant, setup, inv in ROLL_DEVS]
     # 3c. one live EpisodeDataset: state graphs (transition coverage on the smaller, histories on the larger one)
     f_dscover = pool.submit(tlc.run, "ReturnsDataset", tlc.cfg_text(constants=ds_consts(*ds_cover, True)), workers=1, tag="c07dscover", timeout=1500)
     f_dswalk = pool.submit(tlc.run, "ReturnsDataset", tlc.cfg_text(constants=ds_consts(*ds_walk, True), invariants=DS_INVS), workers=1, coverage=True,
@@ -1085,9 +1114,9 @@ def run(rep):
         for (kinds, shapes, inv), f in zip(DEVS, f_dev):
             if f.result().violated != inv:
                 raise tlc.MachineryError(f"canary: deviation {inv} ({kinds}) not refuted by TLC")
-        for (variant, inv), f in zip(ROLL_DEVS, f_rolldev):
+        for (variant, setup, inv), f in zip(ROLL_DEVS, f_rolldev):
             if f.result().violated != inv:
-                raise tlc.MachineryError(f"canary: rollout deviation {variant} not refuted by {inv}")
+                raise tlc.MachineryError(f"canary: rollout deviation {variant} (set-up {setup}) not refuted by {inv}")
         if f_dsdev.result().violated != "PrepareAnswersItsGamma":
             raise tlc.MachineryError("canary: reward to go memoised per episode position (PrepareMemo) not refuted by PrepareAnswersItsGamma")
 
@@ -1161,24 +1190,27 @@ def run(rep):
         rolls += r.emitted
     lap("tlc_rollouts_wait")
     if rolls:
-        sel = select_rollouts(rolls, rep.seed, roll_budget)
+        sel, n_cover = select_rollouts(rolls, rep.seed, roll_budget)
         # binding canary on a rollout the implementation handles as specified (so that the corruption is the only
         # difference); if none of the first few is, the deviations are reported below and the canary has nothing to add
-        for v in sel[:6]:
-            if check_rollout(v):
+        for i, v in enumerate(sel[:6]):
+            if check_rollout(v, setup=SETUPS[i % 3]):
                 continue
-            if not check_rollout(v, corrupt=True):
+            if not check_rollout(v, corrupt=True, setup=SETUPS[i % 3]):
                 raise tlc.MachineryError("binding canary: corrupted expected next value of a rollout went unnoticed")
             break
-        for v in sel:
-            for pr in check_rollout(v):
-                rep.violation(pr["key"], pr["what"], {"mode": "rollout", "record": v})
-        rep.traces += len(sel)
-        checked += len(sel)
+        # the rollouts that cover the step classes run in ALL set-ups, the seeded sample rotates through them
+        plan = [(v, su) for v in sel[:n_cover] for su in SETUPS] + [(v, SETUPS[i % 3]) for i, v in enumerate(sel[n_cover:])]
+        for v, su in plan:
+            for pr in check_rollout(v, setup=su):
+                rep.violation(pr["key"], pr["what"], {"mode": "rollout", "record": v, "setup": su})
+        rep.traces += len(plan)
+        checked += len(plan)
         together = [v for v in sel if any(sum(1 for o in c[0] if o) >= 2 and 2 in c[0] for c in v["classes"])]
-        rep.extra["rollouts"] = {"specified": len(rolls), "replayed": len(sel), "step_classes": len({(v["n"], json.dumps(c)) for v in rolls for c in v["classes"]}),
+        rep.extra["rollouts"] = {"specified": len(rolls), "replayed": len(sel), "runs": len(plan), "cover": n_cover,
+                                 "runs_per_setup": {su: sum(1 for _, x in plan if x == su) for su in SETUPS}, "step_classes": len({(v["n"], json.dumps(c)) for v in rolls for c in v["classes"]}),
                                  "replayed_with_simultaneous_ends_incl_truncation": len(together),
-                                 "collection_calls": sum(len(v["blocks"]) for v in sel)}
+                                 "collection_calls": sum(len(v["blocks"]) for v, _ in plan)}
         if together:
             v = together[len(together) // 2]
             rep.sample({"operation": "rollout", "scripts": v["scripts"], "blocking": v["blocking"], "first_block": v["blocks"][0]["flat"][: 2 * v["blocks"][0]["bs"]]})
@@ -1255,7 +1287,6 @@ def run(rep):
         "update_ppo fixes gamma=0.99, lambda=0.95: compared with TLC's symbolic closed form in (G, C) within (6*steps+2) float32 round-offs of the term magnitudes",
         "reward cross-entropy of the encoder compared as a multiple of ln 2 within N+H+2 ulp; everything else exact",
         "truncation boundaries inside a rollout are not treated as cuts of the accumulated advantage (the statement speaks of termination); the next value of a truncated step must be the value of the episode's own final observation",
-        "rollouts are judged with a logger and RecordEpisodeStatistics present (train_ppo with logger=MemoryLogger): without a logger collect_trajectories never restores final observations (recorded by X05 as an oddity of the unchanged code)",
         "EpisodeDataset: Prepare on a data set without samples has no specified result (the repository raises IndexError)",
         "trusted: scripted vector environment, table stubs, recorders interposed on ppo.ppo_loss / ppo.compute_gae, TLC",
     ]
@@ -1267,8 +1298,8 @@ def replay(path, rep):
         probs = check_vector(d["record"])
         print("vector:", json.dumps(d["record"])[:600])
     elif d["mode"] == "rollout":
-        probs = check_rollout(d["record"])
-        print("rollout:", json.dumps({k: d["record"][k] for k in ("n", "scripts", "blocking")}))
+        probs = check_rollout(d["record"], setup=d.get("setup", "logger_stats"))
+        print("rollout:", d.get("setup", "logger_stats"), json.dumps({k: d["record"][k] for k in ("n", "scripts", "blocking")}))
     elif d["mode"] == "dataset":
         from .. import graph
 
